@@ -17,6 +17,7 @@ type GenOpts struct {
 	CrashAt  bool // include crashat/powerat directives (multi-epoch)
 	Close    bool // end with Close
 	PowerDir string
+	Churn    bool // start by filling most keys, then delete / re-put (index chains with holes)
 }
 
 // GenProgram draws a random program.
@@ -58,6 +59,15 @@ func GenProgram(rng *rand.Rand, id string, cfg Cfg, g GenOpts) *Program {
 			}
 		}
 		return pick()
+	}
+	if g.Churn {
+		for _, k := range g.Keys {
+			if rng.Intn(10) < 8 {
+				v, vl := val()
+				p.Ops = append(p.Ops, Op{Op: "put", K: k, V: v, VL: vl})
+				live[k] = true
+			}
+		}
 	}
 	for len(p.Ops) < g.Ops {
 		x := rng.Intn(100)
